@@ -77,10 +77,17 @@ fn shapes_for(args: &mut Args, max_entries: usize) -> (Vec<tree::Shape>, Option<
     (v, Some(path))
 }
 
-fn cases_of(shapes: &[tree::Shape]) -> Vec<Case> {
+/// All 4 rotations of every shape with <= `full_upto` entries; one rotation (shape index + seed,
+/// mod 4) of the larger ones.
+fn cases_of(shapes: &[tree::Shape], full_upto: usize, seed: u64) -> Vec<Case> {
     let mut v = Vec::with_capacity(shapes.len() * 4);
-    for s in shapes {
-        for r in 0..4 {
+    for (i, s) in shapes.iter().enumerate() {
+        if tree::count_entries(s) <= full_upto {
+            for r in 0..4 {
+                v.push(Case { shape: s.clone(), name_rot: r, content_rot: r % 3 });
+            }
+        } else {
+            let r = ((i as u64 + seed) % 4) as usize;
             v.push(Case { shape: s.clone(), name_rot: r, content_rot: r % 3 });
         }
     }
@@ -100,7 +107,8 @@ fn run_sub(mut args: Args) -> SubResult {
     };
     let is_worker = args.worker.is_some();
     let (shapes, tmpfile) = shapes_for(&mut args, max_entries);
-    let cases = cases_of(&shapes);
+    let full_upto = if c04 && args.thorough() { 5 } else { max_entries };
+    let cases = cases_of(&shapes, full_upto, args.seed);
     res.bound = if c04 {
         format!(
             "all {} canonical tree shapes with <= {max_entries} entries, depth <= 3, 4 name classes x extensions {{\"\",x,y}} (file `n` and directory `n` never coexist; `n.x` and `n/` do); {INSTANCES}. Per tree: FileSystem; Embedded via the real expand_dir; zip {{stored,deflated}} x {{dir members, none}} x {{plain, ./ (+ a `./` root member)}} x member orders (all permutations for <= 5 members, else sorted/reversed/dirs-last) in memory + 1 plain-writer archive in memory and file-backed; tar {{dir members, none}} x {{plain, ./}} x the same orders, GNU long-name members for every name > 100 bytes, in memory + 1 tar::Builder archive in memory and file-backed. Queries: every id of the tree, every proper prefix, \"\", 2 absent ids x extensions {{\"\",x,y}} x read/exists(File)/exists(Directory)/read_dir",
@@ -113,6 +121,9 @@ fn run_sub(mut args: Args) -> SubResult {
         )
     };
     res.rule = "cases = (canonical shape, rotation r) enumerated simplest-first (entries, depth, node order); a shape is canonical up to permutation of the 4 name classes; distinct = hashes of the normalised answer tables observed (c04) / expected listing tables (c11); evaluations = (tree, source instance[, asset type, cache]) pairs compared with the oracle".into();
+    if c04 && args.thorough() {
+        res.cap("c04 thorough: the 159047 shapes with exactly 6 entries are run under 1 of their 4 instantiations each (rotation = (shape index + seed) mod 4); all shapes with <= 5 entries under all 4");
+    }
     if !c04 && args.thorough() {
         res.cap("c11 thorough stops at 5 entries (c04_sources covers 6): the cache-level work per tree is ~10x that of c04");
     }
